@@ -1,6 +1,86 @@
-"""Counterexample search for a failed obligation (Verus gives none).  Filled in per unit;
-when nothing is registered the VIOLATION line carries no-failing-input-found."""
+"""Bounded contract checks on the real crate (bounded/ crate): (a) stand-in for an item that cannot be brought
+under contract on the current tree, (b) concrete failing input for a failed obligation, (c) labelled bounded
+stand-ins for parts of a property no contract reaches.  Never counted as proof."""
+import json
+import os
+import subprocess
+
+from .unit import VERIF, REPO
+
+# item key -> harnesses that exercise its contract through the public API
+ITEM_HARNESS = {
+    'vlq::encode_vlq': ['vlq_encode'], 'vlq::generate_vlq_segment': ['vlq_encode'], 'encoder::encode_vlq_diff': ['vlq_encode', 'roundtrip'],
+    'vlq::parse_vlq_segment_into': ['vlq_decode'], 'vlq::parse_vlq_segment': ['vlq_decode'], 'vlq::B64': ['vlq_decode'], 'vlq::B64_CHARS': ['vlq_encode'],
+    'utils::greatest_lower_bound': ['lookup', 'hermes_scope', 'index_flatten'],
+    'types::SourceMap::lookup_token': ['lookup'], 'types::SourceMap::get_token': ['lookup', 'ordering'], 'types::TokenIter::next': ['lookup', 'ordering'],
+    'types::Token::get_src_col': ['lookup'], 'types::SourceMap::tokens': ['lookup'],
+    'types::SourceMap::new': ['ordering', 'lookup'], 'builder::SourceMapBuilder::into_sourcemap': ['ordering', 'builder_model'],
+    'builder::SourceMapBuilder::add_with_id': ['ordering', 'builder_model'], 'builder::SourceMapBuilder::add_raw': ['ordering'], 'builder::SourceMapBuilder::add': ['ordering'],
+    'builder::SourceMapBuilder::add_source_with_id': ['builder_model', 'rewrite'], 'builder::SourceMapBuilder::add_source': ['builder_model'], 'builder::SourceMapBuilder::add_name': ['builder_model'],
+    'builder::SourceMapBuilder::set_source_contents': ['builder_model', 'rewrite'], 'builder::SourceMapBuilder::get_source_contents': ['builder_model'],
+    'builder::SourceMapBuilder::add_token': ['rewrite'], 'builder::SourceMapBuilder::take_mapping': ['hermes_rewrite'],
+    'decoder::StripHeaderReader::strip_head_read': ['header'], 'decoder::StripHeaderReader::read': ['header'], 'decoder::strip_junk_header': ['header'],
+    'decoder::is_junk_json': ['header'], 'decoder::StripHeaderReader::new': ['header'],
+    'decoder::decode_rmi': ['rmi_roundtrip'], 'decoder::decode_regular__mappings_loop': ['roundtrip', 'rmi_roundtrip', 'raw_keys'],
+    'encoder::serialize_mappings': ['raw_keys', 'roundtrip'], 'encoder::serialize_range_mappings': ['rmi_roundtrip'], 'encoder::encode_rmi': ['rmi_roundtrip'],
+    'encoder::encode_rmi::encode_byte': ['rmi_roundtrip'],
+    'types::SourceMap::prefix_source': ['root_setters'], 'types::SourceMap::set_source_root': ['root_setters', 'roundtrip'], 'types::SourceMap::set_source': ['root_setters'],
+    'types::SourceMap::get_source': ['root_setters'], 'types::SourceMap::set_source_contents': ['root_setters'], 'types::Token::get_source': ['rewrite', 'roundtrip'],
+    'types::Token::get_name': ['rewrite', 'roundtrip'],
+    'types::SourceMapIndex::lookup_token': ['index_flatten'], 'types::SourceMapSection::get_offset': ['index_flatten'],
+    'hermes::SourceMapHermes::get_scope_for_token': ['hermes_scope'],
+}
+# property -> stand-ins that run on every check (parts of the property outside the verifier's reach so far)
+PROPERTY_BOUNDED = {
+    'C01': ['roundtrip'], 'C03': ['raw_keys'], 'C08': ['index_flatten'], 'C09': ['rewrite', 'hermes_rewrite'],
+    'C14': ['hermes_scope'], 'C13': ['root_setters', 'builder_model'], 'C07': ['rmi_roundtrip'], 'C12': ['header'], 'C04': ['ordering'],
+}
+_results = {}
+_built = {}
+
+
+def run_harness(name):
+    """-> dict(harness, bound, cases, counterexample|None, status) ; cached per process"""
+    if name in _results:
+        return _results[name]
+    env = dict(os.environ, VERIF_REPO=REPO)
+    try:
+        p = subprocess.run([os.path.join(VERIF, 'bin', 'bounded'), name], capture_output=True, text=True, timeout=900, env=env)
+        out = p.stdout.strip().split('\n')[-1] if p.stdout.strip() else ''
+        if p.returncode in (0, 1) and out.startswith('{'):
+            d = json.loads(out)
+            d['status'] = 'counterexample' if d.get('counterexample') else 'passed'
+        else:
+            d = dict(harness=name, status='unavailable', note=(p.stdout + p.stderr)[-600:])
+    except Exception as e:
+        d = dict(harness=name, status='unavailable', note=str(e))
+    d['cmd'] = 'VERIF_REPO=%s bin/bounded %s' % (REPO, name)
+    _results[name] = d
+    return d
 
 
 def search(pid, unit_run, failure, all_failures=None):
-    return dict(found=False, note='no counterexample generator registered for %s' % failure['obligation'])
+    """concrete failing input for a failed obligation"""
+    tried = []
+    for f in [failure] + list(all_failures or []):
+        for h in ITEM_HARNESS.get(f.get('item') or '', []):
+            if h in tried:
+                continue
+            tried.append(h)
+            d = run_harness(h)
+            if d.get('status') == 'counterexample':
+                return dict(found=True, harness=h, bound=d.get('bound'), input=d['counterexample'], replay_cmd=d['cmd'],
+                            note='bounded enumeration on the real crate through its public API; the input above is the first failing case')
+    return dict(found=False, harnesses_tried=tried, note='no failing input within the stated bounds' if tried else 'no bounded harness registered for this item')
+
+
+def stand_in(keys):
+    """bounded stand-ins for items that could not be brought under contract"""
+    out = []
+    seen = set()
+    for k in keys:
+        for h in ITEM_HARNESS.get(k, []):
+            if h not in seen:
+                seen.add(h)
+                out.append(run_harness(h))
+    return out
